@@ -875,6 +875,7 @@ func TestMessages(t *testing.T) {
 		}
 		defer docs.Close()
 	}
+	var wantItems [][]int // the members populated in each item of the message being checked (response messages)
 	check := func(id string, msg any, newPtr func() any) {
 		n++
 		var probs []string
@@ -889,7 +890,21 @@ func TestMessages(t *testing.T) {
 		if err != nil {
 			probs = append(probs, fmt.Sprintf("ttlv:not-well-formed:%v", err))
 		}
-		_ = root
+		if root != nil && wantItems != nil {
+			var got [][]int
+			for _, it := range root.Kids {
+				if it.Tag == int(kmip.TagBatchItem) {
+					var ts []int
+					for _, k := range it.Kids {
+						ts = append(ts, k.Tag)
+					}
+					got = append(got, ts)
+				}
+			}
+			if fmt.Sprint(got) != fmt.Sprint(wantItems) {
+				probs = append(probs, fmt.Sprintf("ttlv:item-elements-differ:emitted=%v:populated=%v", got, wantItems))
+			}
+		}
 		back := newPtr()
 		if err := ttlv.UnmarshalTTLV(b1, back); err != nil {
 			probs = append(probs, fmt.Sprintf("ttlv:decode-error:%v", err))
@@ -951,11 +966,33 @@ func TestMessages(t *testing.T) {
 							ext := &kmip.MessageExtension{VendorIdentification: "vendor", CriticalityIndicator: true, VendorExtension: vendorExt(v)}
 							items := []kmip.ResponseBatchItem{{Operation: e.Op, UniqueBatchItemID: []byte("a"), ResponsePayload: p},
 								{Operation: e.Op, UniqueBatchItemID: []byte("b"), ResultStatus: kmip.ResultStatusOperationFailed, ResultReason: kmip.ResultReasonItemNotFound, ResultMessage: "m"}}
+							// an item carries what it is populated with, whatever its status says: a payload next to a status that is not
+							// Success (failed, pending, undone) is on the wire like any other member
+							want := [][]int{{int(kmip.TagOperation), int(kmip.TagUniqueBatchItemID), int(kmip.TagResultStatus), int(kmip.TagResponsePayload)},
+								{int(kmip.TagOperation), int(kmip.TagUniqueBatchItemID), int(kmip.TagResultStatus), int(kmip.TagResultReason), int(kmip.TagResultMessage)}}
 							if mode == full {
 								items[0].MessageExtension = ext
+								want[0] = append(want[0], int(kmip.TagMessageExtension))
+								for k, st := range []kmip.ResultStatus{kmip.ResultStatusOperationFailed, kmip.ResultStatusOperationPending, kmip.ResultStatusOperationUndone} {
+									it := kmip.ResponseBatchItem{Operation: e.Op, UniqueBatchItemID: []byte{byte('c' + k)}, ResultStatus: st, ResponsePayload: p}
+									w := []int{int(kmip.TagOperation), int(kmip.TagUniqueBatchItemID), int(kmip.TagResultStatus)}
+									if st == kmip.ResultStatusOperationFailed {
+										it.ResultReason, it.ResultMessage = kmip.ResultReasonGeneralFailure, "partial"
+										w = append(w, int(kmip.TagResultReason), int(kmip.TagResultMessage))
+									}
+									if st == kmip.ResultStatusOperationPending {
+										it.AsynchronousCorrelationValue = []byte{1, 2, 3}
+										w = append(w, int(kmip.TagAsynchronousCorrelationValue))
+									}
+									items = append(items, it)
+									want = append(want, append(w, int(kmip.TagResponsePayload)))
+								}
+								hdr.BatchCount = int32(len(items))
 							}
 							msg := &kmip.ResponseMessage{Header: hdr, BatchItem: items}
+							wantItems = want
 							check(id, msg, func() any { return new(kmip.ResponseMessage) })
+							wantItems = nil
 						}
 					}()
 				}
@@ -1231,13 +1268,16 @@ func variants(root *refwire.Item) (res []*refwire.Item, labels []string) {
 			x.Kids = append(x.Kids, cloneItem(x.Kids[len(x.Kids)-1]))
 			res, labels = append(res, c), append(labels, fmt.Sprintf("duplicate-last-in:%s", ttlv.TagString(n.Tag)))
 		}
-		if len(n.Kids) >= 2 {
+		// members in another order than the library writes them (every adjacent pair exchanged): accepted or not, what is accepted
+		// must come back in a form that is accepted again
+		for i := 0; i+1 < len(n.Kids); i++ {
 			c := cloneItem(root)
 			x := at(c, p)
-			x.Kids[0], x.Kids[1] = x.Kids[1], x.Kids[0]
-			res, labels = append(res, c), append(labels, fmt.Sprintf("swap-first-two-in:%s", ttlv.TagString(n.Tag)))
+			x.Kids[i], x.Kids[i+1] = x.Kids[i+1], x.Kids[i]
+			res, labels = append(res, c), append(labels, fmt.Sprintf("swap-%d-and-next-in:%s", i, ttlv.TagString(n.Tag)))
 		}
 	}
+	res, labels = append(res, cloneItem(root)), append(labels, "as-written")
 	return
 }
 
